@@ -8,6 +8,13 @@ ROOT = os.path.dirname(os.path.dirname(os.path.abspath(__file__)))
 TB = "z3 5.1 and cvc5 (solvers), the pyvc VC generator and its CPython/built-in models (DESIGN.md section 3), spec/ reference semantics"
 
 CHECKS = {
+    "C01": dict(
+        level="other", design_ref="DESIGN.md 5/C01",
+        technique="bounded contract checking of Ace(line) against an independent Cisco reader + exact set algebra (regex front end is outside the deductive subset)",
+        text="Contract on Ace.__init__/line: Sem(ace) equals the independent reader's meaning of the text field by field (action, protocol, address sets through "
+             "prefixes and through wildcard text, port sets, flag/log tokens, sequence) and the rendered line read independently denotes the same packets. Checked "
+             "natively (bounded, not proved) on the gen_ace grammar x platforms x version tables x switches.",
+        note="Oracle: spec/cisco_ref.py, spec/ref_tables.py, spec/sets.py (hand written, independent). Known finding: protocol 0 <-> ip conflation (tests pin it)."),
     "C08": dict(
         level="other", design_ref="DESIGN.md 5/C08",
         technique="contracts on Port._items_to_ports/_ports_to_items discharged by own VC generator (z3/cvc5); codec and setter text path by bounded contract checking",
